@@ -1096,7 +1096,7 @@ package gorums
 //@   on go "c.sender"
 //@     assert[C03.b] nsender == 0 && recv == c && c.node == n && c.parentCtx != nil && c.sendQ != nil && c.responseRouters != nil
 //@     set nsender = nsender + 1
-//@   ensures[C03.b] nsender == 1 && result != nil && result.node == n
+//@   ensures[C03.b] nsender == 1 && result != nil && result.node == n && result.parentCtx != nil
 
 // ---------------------------------------------------------------- server.go
 //
@@ -1312,10 +1312,13 @@ package gorums
 //@   ensures[C14.f] forall(n, "*RawNode", wasalloc(n) ==> n.id == old(n.id) && n.addr == old(n.addr))
 
 //@ func (*RawNode).connect
-//@   props C14
+//@   props C14 C12
 //@   requires n != nil && mgr != nil
+//@   on call "newChannel"
+//@     assume streamDownErr != nil
 //@   ensures n.mgr == mgr && n.id == old(n.id) && n.addr == old(n.addr)
-//@   trusted
+//@   ensures[C12.a] mgr.opts.noConnect ==> result == nil && n.channel == old(n.channel)
+//@   ensures[C12.a] !mgr.opts.noConnect ==> n.channel != nil && n.channel.node == n
 
 //@ func NewRawNodeWithID
 //@   props C14
@@ -1568,3 +1571,101 @@ package gorums
 //@     after assert[C14.a] forall(i, 0, len(nodes), forall(j, 0, len(nodes), i < j ==> nodes[i].id <= nodes[j].id))
 //@   ensures[C14.e] len(o.idMap) == 0 ==> err != nil
 //@   ensures[C14.a] err == nil ==> forall(i, 0, len(nodes), nodes[i] != nil) && forall(i, 0, len(nodes), forall(j, 0, len(nodes), i < j ==> nodes[i].id < nodes[j].id))
+
+// ---------------------------------------------------------------- small load-bearing pieces
+//
+// Option setters: each closure sets exactly the field it is named after to exactly the value
+// given (C10 metadata, C06/C18 send-waiting, C12/C14 no-connect); the connection flags are 0/1
+// cells written and read atomically (C09.f, C10.e rest on set/clear/get meaning what they say).
+
+//@ func WithMetadata$1
+//@   props C10
+//@   requires o != nil
+//@   ensures[C10.c] o.metadata == md && o.perNodeMD == old(o.perNodeMD) && o.noConnect == old(o.noConnect) && o.sendBuffer == old(o.sendBuffer)
+
+//@ func WithPerNodeMetadata$1
+//@   props C10
+//@   requires o != nil
+//@   ensures[C10.c] o.perNodeMD == f && o.metadata == old(o.metadata) && o.noConnect == old(o.noConnect) && o.sendBuffer == old(o.sendBuffer)
+
+//@ func WithNoConnect$1
+//@   props C12 C14
+//@   requires o != nil
+//@   ensures[C12.a] o.noConnect && o.metadata == old(o.metadata) && o.perNodeMD == old(o.perNodeMD) && o.sendBuffer == old(o.sendBuffer)
+
+//@ func WithSendBufferSize$1
+//@   props C03 C12
+//@   requires o != nil
+//@   ensures[C03.a] o.sendBuffer == size && o.noConnect == old(o.noConnect) && o.metadata == old(o.metadata) && o.perNodeMD == old(o.perNodeMD)
+
+//@ func WithNoSendWaiting$1
+//@   props C06 C18
+//@   requires o != nil
+//@   ensures[C06.e] o.noSendWaiting && o.callType == old(o.callType)
+
+//@ func (*atomicFlag).set
+//@   props C09 C10
+//@   requires f != nil
+//@   ghost n Int = 0
+//@   on call "atomic.StoreInt32"
+//@     assert[C09.f] arg1 == 1 && n == 0
+//@     after set n = n + 1
+//@   ensures[C09.f] n == 1
+//@   inline
+
+//@ func (*atomicFlag).clear
+//@   props C09 C10
+//@   requires f != nil
+//@   ghost n Int = 0
+//@   on call "atomic.StoreInt32"
+//@     assert[C10.e] arg1 == 0 && n == 0
+//@     after set n = n + 1
+//@   ensures[C10.e] n == 1
+//@   inline
+
+//@ func (*atomicFlag).get
+//@   props C09 C10
+//@   requires f != nil
+//@   ghost v Int = 0
+//@   on call "atomic.LoadInt32"
+//@     after set v = res0
+//@   ensures[C09.f] result <==> v == 1
+//@   inline
+
+//@ func (*channel).isConnected
+//@   props C06 C10
+//@   requires c != nil
+//@   ghost est Bool = false
+//@   ghost brk Bool = false
+//@   on call "c.connEstablished.get"
+//@     after set est = res0
+//@   on call "c.streamBroken.get"
+//@     after set brk = res0
+//@   ensures[C06.f] result ==> est && !brk
+//@   ensures[C06.f] !result ==> !est || brk
+//@   inline
+//@   opt optional-hooks=1
+
+// The writer goroutine of a server connection: every finished reply is written to the stream
+// exactly once, in the order it was taken from the channel; it ends with the connection.
+//@ func (*orderingServer).NodeStream$1
+//@   props C04 C03 C05
+//@   ghost pend Bool = false
+//@   ghost cur Int = 0
+//@   loop "for {"
+//@     invariant[C04.e] !pend
+//@   on recv "finished" as m
+//@     set pend = true
+//@     set cur = m
+//@   on call "srv.SendMsg"
+//@     assert[C04.e] pend && arg0 == iface("*Message", cur)
+//@     set pend = false
+//@   on return
+//@     assert[C04.e] !pend
+//@   blocks until ctx
+//@   opt external-ok=SendMsg
+
+//@ func (*Server).RegisterHandler
+//@   props C04 C17
+//@   requires s != nil && s.srv != nil && s.srv.handlers != nil
+//@   ensures[C17.a] in(method, s.srv.handlers) && forall(k, "Str", k != method ==> (in(k, s.srv.handlers) <==> old(in(k, s.srv.handlers))))
